@@ -20,7 +20,7 @@ EXPLANATION = ("Necessary structural clauses of C06 (not the absence of every pa
                "(R6) subtractions on file-derived offsets/sizes are dominated by the matching comparison. Cells that fail on the pinned "
                "tree are genuine defects listed one by one in known_findings.json; any other cell failing is a new violation."
                " (R3 cell assert_slice_crc) every slice index on the CRC path, taken also when damage has been detected, is bounded by the length of the slice it indexes; (R5 arith) no unguarded panicking arithmetic on values parsed before any CRC was verified."
-               ' Added later: (R8) no statically resolved call cycle in code that reads files; (R9) under block_check = Crc32 every path of Source::cut verifies (= C05-R2); (R10) the error of a block parse ends the operation (no error arm that goes on or spins).')
+               ' Added later: (R8) no statically resolved call cycle in code that reads files; (R9) under block_check = Crc32 every path of Source::cut verifies (= C05-R2); (R10) the error of a block parse ends the operation (no error arm that goes on or spins). (R11) reader code starts no thread of its own.')
 ASSUMPTIONS = ["compiler-inserted bounds checks after a successful length check are not counted", "decompression libraries return Err (not panic) on damaged streams",
                "rustc MIR construction and trait resolution; call graph over-approximates dynamic dispatch"]
 
